@@ -71,7 +71,8 @@ extern int mpt_vprintf(MPT_STRUCT(array) *arr, const char *format, va_list args)
 		buf->_used = used;
 		return MPT_ERROR(BadValue);
 	}
-	if (rval >= 0 && (size_t) rval <= len) {
+	/* complete output (truncated if result does not leave space for termination) */
+	if (!rval || (size_t) rval < len) {
 		if ((size_t) rval < len) {
 			base[rval] = '\0';
 		}
@@ -89,6 +90,7 @@ extern int mpt_vprintf(MPT_STRUCT(array) *arr, const char *format, va_list args)
 		used += rval;
 		if (used < size) {
 			base[rval] = '\0';
+			arr->_buf->_used = used;
 			return rval;
 		}
 	}
